@@ -1104,3 +1104,85 @@ Proof.
     unfold nlen in Hl. cbn [length] in Hl. nia. }
   nia.
 Qed.
+
+(* ---- CSI .. SP <final> ---------------------------------------------------------------------------------------------------------------------------------------------- *)
+Lemma alloc_dom_sp_l t p ch : alloc (snd (csi_sp_c t p ch)) <= csi_sp_a t p ch.
+Proof.
+  unfold csi_sp_c, csi_sp_a. cbv zeta.
+  destruct (ch =? 65).
+  { cbn [snd]. unfold sr_c, sr_a, ticks_of. apply iter_res_alloc_dom; [|intro x; apply scroll_right_a_spec].
+    intros x x' E. apply grow_le; [apply scroll_right_a_spec|]. destruct (scroll_right_a_spec x) as (S1 & _). apply (S1 _ E). }
+  destruct (ch =? 64).
+  { cbn [snd]. unfold sl_c, sl_a, ticks_of. apply iter_alloc_dom. intro x. apply grow_le; apply scroll_left_a_spec. }
+  destruct (ch =? 68); [cbn; lia|]. destruct (ch =? 100); cbn; lia.
+Qed.
+Lemma alloc_bound_sp_l t p ch n : Inv09 t -> 0 <= n -> 0 <= csi_sp_a t p ch <= 8 * (n + 1) * scr t.
+Proof.
+  intros H Hn. destruct (cap_facts t H) as (_ & _ & _ & _ & _ & _ & _ & _ & _ & _ & _ & F12 & F13). unfold csi_sp_a.
+  destruct (ch =? 65). { pose proof (sr_a_bound t (first_or (nums p) 1) H). nia. }
+  destruct (ch =? 64). { pose proof (sl_a_bound t (first_or (nums p) 1) H). nia. }
+  nia.
+Qed.
+
+(* ---- CSI .. $ <final>: the rectangle is clipped to max(rows, text height) x text width ---------------------------------------------------------------------------------- *)
+Lemma rect_lists_cap t a b c d ys xs : Inv09 t -> rect_lists t a b c d = (ys, xs) -> forall y, In y ys -> y + 1 <= capR t.
+Proof.
+  intros H E y Hin. unfold rect_lists, rect_area in E. inversion E. subst ys. apply in_zrange_incl in Hin.
+  destruct (scrH_ge t H) as (G1 & G2 & G3). destruct (inv_facts t H) as (_ & I2 & I3 & _). unfold capR. pose proof (zlen_nonneg (lines t)). lia.
+Qed.
+Lemma csi_dollar_a_nonneg t p ch : 0 <= csi_dollar_a t p ch.
+Proof.
+  unfold csi_dollar_a, rect_lists.
+  destruct (ch =? 120). { destruct (nums p) as [|c [|a [|b [|cc [|d [|e r]]]]]]; try lia. destruct (is_scalar c); [|lia]. destruct (rect_area t a b cc d) as [[[tl lc] bl] rc]. apply fill_cells_a_nonneg. }
+  destruct (ch =? 122). { destruct (nums p) as [|a [|b [|c [|d [|e r]]]]]; try lia. destruct (rect_area t a b c d) as [[[tl lc] bl] rc]. apply fill_cells_a_nonneg. }
+  destruct (ch =? 123). { destruct (nums p) as [|a [|b [|c [|d [|e r]]]]]; try lia. destruct (rect_area t a b c d) as [[[tl lc] bl] rc]. apply sel_erase_a_nonneg. }
+  lia.
+Qed.
+Lemma out_grow_dollar t p ch : out_grow t (dollar_outcome t p ch) <= csi_dollar_a t p ch.
+Proof.
+  pose proof (csi_dollar_a_nonneg t p ch) as H0. revert H0.
+  unfold dollar_outcome, csi_dollar_a. destruct (out_grow_same t (dflt p)) as [S1 S2]. destruct (out_grow_same t p) as [S3 _].
+  destruct (ch =? 119); [rewrite S1; auto|]. intros _.
+  destruct (ch =? 120).
+  { unfold cmd_fill_rect. destruct (nums p) as [|c [|a [|b [|cc [|d [|e r]]]]]]; try (rewrite S2; lia).
+    destruct (is_scalar c); [|rewrite S2; lia]. unfold rect_lists. destruct (rect_area t a b cc d) as [[[tl lc] bl] rc].
+    apply out_grow_ok_le; [apply clear_dom|apply fill_cells_a_nonneg]. }
+  destruct (ch =? 122).
+  { unfold cmd_erase_rect. destruct (nums p) as [|a [|b [|c [|d [|e r]]]]]; try (rewrite S2; lia).
+    unfold rect_lists. destruct (rect_area t a b c d) as [[[tl lc] bl] rc]. apply out_grow_ok_le; [apply clear_dom|apply fill_cells_a_nonneg]. }
+  destruct (ch =? 123).
+  { unfold cmd_sel_erase_rect. destruct (nums p) as [|a [|b [|c [|d [|e r]]]]]; try (rewrite S2; lia).
+    unfold rect_lists. destruct (rect_area t a b c d) as [[[tl lc] bl] rc]. apply out_grow_ok_le; [|apply sel_erase_a_nonneg].
+    rewrite sel_erase_a_exact. unfold sel_erase_a. cbn [fst]. rewrite !fold_sum_fst. change (lines (set_lines t ?l)) with l.
+    match goal with |- lsize ?a <= _ + (lsize ?b - _) => assert (E : a = b); [|rewrite E; lia] end.
+    apply fold_left_ext. intros ls y. rewrite fold_sum_fst. reflexivity. }
+  rewrite S3. lia.
+Qed.
+Lemma alloc_dom_dollar_l t p ch : alloc (snd (csi_dollar_c t p ch)) <= csi_dollar_a t p ch.
+Proof. unfold csi_dollar_c. cbn [snd alloc]. apply out_grow_dollar. Qed.
+Lemma alloc_bound_dollar_l t p ch n : Inv09 t -> 0 <= n -> 0 <= csi_dollar_a t p ch <= 8 * (n + 1) * scr t.
+Proof.
+  intros H Hn. destruct (cap_facts t H) as (F1 & F2 & F3 & F4 & F5 & F6 & F7 & F8 & F9 & _ & _ & F12 & _).
+  assert (HB : capB t <= 8 * (n + 1) * scr t) by nia. assert (H0 : 0 <= 8 * (n + 1) * scr t) by nia.
+  unfold csi_dollar_a.
+  destruct (ch =? 120).
+  { destruct (nums p) as [|c [|a [|b [|cc [|d [|e r]]]]]]; try lia. destruct (is_scalar c); [|lia].
+    destruct (rect_lists t a b cc d) as [ys xs] eqn:E. pose proof (fill_cells_a_bound (capR t) (scrW t) t ys xs (c, cbg t) F1 F2 (rect_lists_cap _ _ _ _ _ _ _ H E) F7 F8). unfold capB in HB. lia. }
+  destruct (ch =? 122).
+  { destruct (nums p) as [|a [|b [|c [|d [|e r]]]]]; try lia.
+    destruct (rect_lists t a b c d) as [ys xs] eqn:E. pose proof (fill_cells_a_bound (capR t) (scrW t) t ys xs blank F1 F2 (rect_lists_cap _ _ _ _ _ _ _ H E) F7 F8). unfold capB in HB. lia. }
+  destruct (ch =? 123).
+  { destruct (nums p) as [|a [|b [|c [|d [|e r]]]]]; try lia.
+    destruct (rect_lists t a b c d) as [ys xs] eqn:E. pose proof (sel_erase_a_bound (capR t) (scrW t) t ys xs F1 F2 (rect_lists_cap _ _ _ _ _ _ _ H E) F7 F8). unfold capB in HB. lia. }
+  lia.
+Qed.
+(* the state-difference counter of Model/Cost.v (what stage C compares with the measured growth) is therefore bounded as well *)
+Lemma alloc_bound_state_l t p s ch n : Inv09 t -> 0 <= n -> nlen (nums p) <= n -> ch <> 98 -> alloc (snd (csi_final_c t p s ch)) <= 8 * (n + 1) * scr t.
+Proof.
+  intros H Hn Hl H98. destruct (inv_facts t H) as (_ & _ & _ & _ & I5 & _).
+  pose proof (alloc_dom_l t p s ch ltac:(lia)). pose proof (alloc_bound_l t p s ch n H Hn Hl H98). lia.
+Qed.
+Lemma alloc_bound_sp_pair_l t p ch n : Inv09 t -> 0 <= n -> alloc (snd (csi_sp_c t p ch)) <= csi_sp_a t p ch /\ 0 <= csi_sp_a t p ch <= 8 * (n + 1) * scr t.
+Proof. intros H Hn. split; [apply alloc_dom_sp_l|apply alloc_bound_sp_l; assumption]. Qed.
+Lemma alloc_bound_dollar_pair_l t p ch n : Inv09 t -> 0 <= n -> alloc (snd (csi_dollar_c t p ch)) <= csi_dollar_a t p ch /\ 0 <= csi_dollar_a t p ch <= 8 * (n + 1) * scr t.
+Proof. intros H Hn. split; [apply alloc_dom_dollar_l|apply alloc_bound_dollar_l; assumption]. Qed.
